@@ -218,7 +218,26 @@ pub(super) fn generate_parser_actions(generator: &ParserGenerator) -> Result<()>
             generator.out_dir_actions
         ))
     })?;
-    std::fs::write(action_file, prettyplease::unparse(&ast))?;
+    // prettyplease panics on syntax it can't print (e.g. `let ... else` or
+    // declarative macros 2.0 written by the user in the existing file).
+    // The panic is reported as an error so keep the default hook quiet.
+    let hook = std::panic::take_hook();
+    std::panic::set_hook(Box::new(|_| {}));
+    let code = std::panic::catch_unwind(std::panic::AssertUnwindSafe(|| {
+        prettyplease::unparse(&ast)
+    }));
+    std::panic::set_hook(hook);
+    let code = code.map_err(|cause| {
+        let cause = cause
+            .downcast_ref::<String>()
+            .cloned()
+            .or_else(|| cause.downcast_ref::<&str>().map(|s| s.to_string()))
+            .unwrap_or_default();
+        Error::Error(format!(
+            "Unsupported syntax in the actions file {action_file:?}: {cause}"
+        ))
+    })?;
+    std::fs::write(action_file, code)?;
 
     Ok(())
 }
